@@ -347,8 +347,22 @@ class NegateExpression(UnaryExpression):
             AddExpression,
             SubtractExpression,
         )
-        if isinstance(inner, binary_types):
-            inner = f"({inner})"
+        text = str(inner)
+        group = isinstance(inner, binary_types)
+        # A leading minus sign, or a leading literal that "^" or "!" binds tighter
+        # than the negation, would be read back as something else: --x, -5^2, -3!
+        rest = text.lstrip("0123456789.")
+        if text.startswith("-") or (rest != text and rest[:1] in ("^", "!")):
+            group = True
+        # A negated product/quotient that is continued by a product/quotient to its
+        # right, or used as an exponent, must keep its grouping: -(x / z) * y
+        parent = self.parent
+        if isinstance(inner, (MultiplyExpression, DivideExpression)):
+            if isinstance(parent, (MultiplyExpression, DivideExpression)):
+                group = group or parent.left is self
+            group = group or isinstance(parent, PowerExpression)
+        if group:
+            inner = f"({text})"
         return self.with_color("-{}".format(inner))
 
     def to_math_ml_fragment(self) -> str:
